@@ -44,6 +44,9 @@ def traced(cfg):
     from tempest.steps.resample import Resampler
     from tempest.state_manager import StateManager
     c = runs.full(cfg)
+    if c.get("pool") == "tpe":
+        from .c13 import make_tpe
+        c["pool"] = make_tpe(4, c["seed"] + 3)       # a genuine concurrent.futures executor, calls finish out of order
     np.random.seed(c["seed"])
     s, t, like, pt = runs.build(c)
     bad = []
@@ -301,6 +304,11 @@ def run():
         row = dict(target=["gauss2", "bimodal", "support"][j % 3], kernel=["tpcn", "rwm"][j % 2], resample=["syst", "mult"][j % 2], clustering=bool(j % 2),
                    mode="scalar", metric="ess", N=[32, 27][j % 2], cluster_every=1)
         tasks.append(("tvf.checks.c07:traced", dict(cfg=dict(to_cfg(row, ck.subseed("ipool", j)), pool=[2, 3][j % 2])), None))
+    # likelihood evaluated through a real concurrent.futures.ThreadPoolExecutor whose calls complete out of order
+    for j in range(ck.pick(3, 8)):
+        row = dict(target=["gauss2", "bimodal", "support", "vonmises"][j % 4], kernel=["tpcn", "rwm"][j % 2], resample=["syst", "mult"][(j // 2) % 2], clustering=bool(j % 2),
+                   mode=["scalar", "blobs", "blobs2"][j % 3], metric="ess", N=[32, 27][j % 2], cluster_every=1)
+        tasks.append(("tvf.checks.c07:traced", dict(cfg=dict(to_cfg(row, ck.subseed("tpe", j)), pool="tpe")), None))
     for i, st, val in farm.run(tasks, timeout=900, progress="C07"):
         cfg = tasks[i][1]["cfg"]
         if st == "timeout":
@@ -317,6 +325,8 @@ def run():
             ck.event("monitored runs whose prior transform is written for one point, parameter by parameter")
         if cfg.get("xalias"):
             ck.event("monitored runs whose prior transform returns its argument (identity on the unit cube)")
+        if cfg.get("pool") == "tpe":
+            ck.event("monitored runs whose likelihood is evaluated through a concurrent.futures.ThreadPoolExecutor")
         if isinstance(cfg.get("pool"), int):
             ck.event("monitored runs whose likelihood is evaluated in worker processes (integer pool)")
         ck.event("step boundaries checked", val["boundaries"])
